@@ -1000,15 +1000,22 @@ func (in *Interp) rtPanic(fr *frame, ins ssa.Instruction, msg string) {
 }
 
 // checkIndex makes idx concrete and checks 0 <= idx < n (n concrete), panicking on the infeasible side.
-func (in *Interp) checkIndex(fr *frame, ins ssa.Instruction, idx *Term, n int) int {
+func (in *Interp) checkIndex(fr *frame, ins ssa.Instruction, idx *Term, n int, it types.Type) int {
+	signed := true
+	if bt, ok := it.Underlying().(*types.Basic); ok {
+		_, signed, _ = basicSort(bt)
+	}
 	if idx.op == OpConst {
 		v := signExt(idx.val, idx.sort)
+		if !signed {
+			v = int64(idx.val & mask(idx.sort))
+		}
 		if v < 0 || v >= int64(n) {
 			in.rtPanic(fr, ins, fmt.Sprintf("index out of range [%d] with length %d", v, n))
 		}
 		return int(v)
 	}
-	i64 := in.tt.Resize(idx, 64, true)
+	i64 := in.tt.Resize(idx, 64, signed)
 	inRange := in.tt.And(in.tt.Bin(OpSle, in.tt.Const(64, 0), i64), in.tt.Bin(OpSlt, i64, in.tt.Const(64, uint64(n))))
 	if !in.branch(inRange) {
 		in.rtPanic(fr, ins, fmt.Sprintf("index out of range [symbolic] with length %d", n))
@@ -1032,6 +1039,9 @@ func (in *Interp) exec(fr *frame, ins ssa.Instruction) {
 		p := in.get(fr, x.Addr).(PtrV)
 		if p.isNil() {
 			in.rtPanic(fr, ins, "invalid memory address or nil pointer dereference")
+		}
+		if p.rep {
+			in.unsupported("store through an element pointer obtained with a symbolic index into a large array")
 		}
 		in.logAccess("wr", p)
 		p.store(in.get(fr, x.Val))
@@ -1077,10 +1087,10 @@ func (in *Interp) exec(fr *frame, ins ssa.Instruction) {
 		idx := in.get(fr, x.Index).(*Term)
 		switch c := xv.(type) {
 		case StrV:
-			i := in.checkIndex(fr, ins, idx, len(c.b))
+			i := in.checkIndex(fr, ins, idx, len(c.b), x.Index.Type())
 			fr.setv(x, c.b[i])
 		case *ArrayV:
-			i := in.checkIndex(fr, ins, idx, len(c.e))
+			i := in.checkIndex(fr, ins, idx, len(c.e), x.Index.Type())
 			fr.setv(x, c.e[i])
 		default:
 			in.unsupported(fmt.Sprintf("Index on %T", xv))
@@ -1090,14 +1100,28 @@ func (in *Interp) exec(fr *frame, ins ssa.Instruction) {
 		idx := in.get(fr, x.Index).(*Term)
 		switch c := xv.(type) {
 		case SliceV:
-			i := in.checkIndex(fr, ins, idx, c.len)
+			if idx.op != OpConst && c.len > 16 {
+				if i, ok := in.symbolicElem(fr, ins, idx, in.sliceElems(c), x.Index.Type()); ok {
+					fr.setv(x, PtrV{obj: c.arr, path: []int{c.off + i}, rep: true})
+					break
+				}
+			}
+			i := in.checkIndex(fr, ins, idx, c.len, x.Index.Type())
 			fr.setv(x, PtrV{obj: c.arr, path: []int{c.off + i}})
 		case PtrV: // *array
 			if c.isNil() {
 				in.rtPanic(fr, ins, "invalid memory address or nil pointer dereference")
 			}
 			n := len(c.load().(*ArrayV).e)
-			i := in.checkIndex(fr, ins, idx, n)
+			if idx.op != OpConst && n > 16 {
+				if i, ok := in.symbolicElem(fr, ins, idx, c.load().(*ArrayV).e, x.Index.Type()); ok {
+					np := c.sub(i)
+					np.rep = true
+					fr.setv(x, np)
+					break
+				}
+			}
+			i := in.checkIndex(fr, ins, idx, n, x.Index.Type())
 			fr.setv(x, c.sub(i))
 		default:
 			in.unsupported(fmt.Sprintf("IndexAddr on %T", xv))
@@ -1106,7 +1130,7 @@ func (in *Interp) exec(fr *frame, ins ssa.Instruction) {
 		xv := in.get(fr, x.X)
 		switch c := xv.(type) {
 		case StrV:
-			i := in.checkIndex(fr, ins, in.get(fr, x.Index).(*Term), len(c.b))
+			i := in.checkIndex(fr, ins, in.get(fr, x.Index).(*Term), len(c.b), x.Index.Type())
 			fr.setv(x, c.b[i])
 		case *MapV:
 			k := in.get(fr, x.Index)
@@ -1904,4 +1928,123 @@ func (in *Interp) decodeRuneSym(bs []*Term) (*Term, int) {
 		return bad, 1
 	}
 	return or(or(or(shl(and(w(b0), 0x07), 18), shl(and(w(bs[1]), 0x3F), 12)), shl(and(w(bs[2]), 0x3F), 6)), and(w(bs[3]), 0x3F)), 4
+}
+
+// symbolicElem handles a symbolic index into a large table of concrete elements: the indices are
+// partitioned into classes of equal elements, the path forks per feasible class (not per index) and a
+// representative index of the chosen class is returned. ok=false if the elements are not concrete.
+func (in *Interp) symbolicElem(fr *frame, ins ssa.Instruction, idx *Term, elems []Value, it types.Type) (int, bool) {
+	signed := true
+	if bt, ok := it.Underlying().(*types.Basic); ok {
+		_, signed, _ = basicSort(bt)
+	}
+	i64 := in.tt.Resize(idx, 64, signed)
+	n := len(elems)
+	inRange := in.tt.And(in.tt.Bin(OpSle, in.tt.Const(64, 0), i64), in.tt.Bin(OpSlt, i64, in.tt.Const(64, uint64(n))))
+	if !in.branch(inRange) {
+		in.rtPanic(fr, ins, fmt.Sprintf("index out of range [symbolic] with length %d", n))
+	}
+	// classes of equal (concrete) elements
+	var reps []int
+	classOf := make([]int, n)
+	for i := 0; i < n; i++ {
+		found := -1
+		for ci, r := range reps {
+			eq := in.valueEqSafe(elems[r], elems[i])
+			if eq == nil {
+				return 0, false
+			}
+			if eq.IsTrue() {
+				found = ci
+				break
+			}
+			if !eq.IsFalse() {
+				return 0, false
+			}
+		}
+		if found < 0 {
+			reps = append(reps, i)
+			found = len(reps) - 1
+		}
+		classOf[i] = found
+	}
+	if len(reps) > in.cfg.EnumCap {
+		return 0, false
+	}
+	for ci, r := range reps {
+		if ci == len(reps)-1 {
+			return r, true
+		}
+		// condition: idx is a member of class ci (contiguous runs as ranges)
+		var ors []*Term
+		for lo := 0; lo < n; {
+			if classOf[lo] != ci {
+				lo++
+				continue
+			}
+			hi := lo
+			for hi+1 < n && classOf[hi+1] == ci {
+				hi++
+			}
+			if lo == hi {
+				ors = append(ors, in.tt.Bin(OpEq, i64, in.tt.Const(64, uint64(lo))))
+			} else {
+				ors = append(ors, in.tt.And(in.tt.Bin(OpSle, in.tt.Const(64, uint64(lo)), i64), in.tt.Bin(OpSle, i64, in.tt.Const(64, uint64(hi)))))
+			}
+			lo = hi + 1
+		}
+		if in.branch(in.tt.Or(ors...)) {
+			return r, true
+		}
+	}
+	return reps[len(reps)-1], true
+}
+
+// valueEqSafe is valueEq for values that may be incomparable in Go (slices, maps): identity of the
+// backing store is used for those; nil when no verdict is possible.
+func (in *Interp) valueEqSafe(a, b Value) *Term {
+	switch x := a.(type) {
+	case SliceV:
+		y, ok := b.(SliceV)
+		if !ok {
+			return in.tt.tF
+		}
+		return in.tt.Bool(x.arr == y.arr && x.off == y.off && x.len == y.len)
+	case *MapV:
+		y, ok := b.(*MapV)
+		return in.tt.Bool(ok && x == y)
+	case FuncV:
+		y, ok := b.(FuncV)
+		return in.tt.Bool(ok && x.fn == y.fn && len(x.env) == 0 && len(y.env) == 0)
+	case *StructV:
+		y, ok := b.(*StructV)
+		if !ok || len(x.f) != len(y.f) {
+			return in.tt.tF
+		}
+		cs := []*Term{}
+		for i := range x.f {
+			c := in.valueEqSafe(x.f[i], y.f[i])
+			if c == nil {
+				return nil
+			}
+			if c.IsFalse() {
+				return c
+			}
+			cs = append(cs, c)
+		}
+		return in.tt.And(cs...)
+	case IfaceV:
+		y, ok := b.(IfaceV)
+		if !ok {
+			return nil
+		}
+		if x.t == nil || y.t == nil {
+			return in.tt.Bool(x.t == nil && y.t == nil)
+		}
+		if !types.Identical(x.t, y.t) {
+			return in.tt.tF
+		}
+		return in.valueEqSafe(x.v, y.v)
+	}
+	return in.valueEq(a, b)
 }
